@@ -427,7 +427,10 @@ class ConnectHelper(Loggable):
     def _apply_in_info_rules(self):
         exchange_infos = {}
         for name, rules in self._in_info_rules.items():
-            if self.in_infos[name] is None and name not in self._in_info_cache:
+            # without caching, infos not delivered so far are generated again in every call
+            if self.in_infos[name] is None and (
+                not self._cache or name not in self._in_info_cache
+            ):
                 try:
                     info = self._apply_rules(rules)
                     exchange_infos[name] = info
@@ -438,7 +441,9 @@ class ConnectHelper(Loggable):
     def _apply_out_info_rules(self):
         push_infos = {}
         for name, rules in self._out_info_rules.items():
-            if not self.infos_pushed[name] and name not in self._out_info_cache:
+            if not self.infos_pushed[name] and (
+                not self._cache or name not in self._out_info_cache
+            ):
                 try:
                     info = self._apply_rules(rules)
                     push_infos[name] = info
